@@ -204,8 +204,8 @@ pub const EMBEDDINGS: [&str; 8] = [
     "after",
     "import",
     "import-as",
-    "before",
     "crlf",
+    "before",
     "import-own",
     "diamond",
 ];
@@ -218,6 +218,35 @@ pub struct Program {
     pub modules: Vec<(String, String)>,
     /// The module in which the error sits; None when any module of the program will do.
     pub err_module: Option<String>,
+}
+
+/// (module, line, column) — 1-based, column in characters — of the start of the span that
+/// the libraries attach to the error of a program, when it has one inside a module text.
+fn expected_position(p: &Program) -> Option<(String, usize, usize)> {
+    use crate::pipeline::{self, Run};
+    let files: std::collections::BTreeMap<String, String> = p.modules.iter().cloned().collect();
+    let span = match pipeline::run(&files, "main.oal") {
+        Run::Rejected(e) => {
+            let spans = e.spans();
+            match &e {
+                // the CLI reports the last syntax / lexical error of the module
+                pipeline::LoadError::Syntax(..) => spans.last().cloned(),
+                _ => spans.first().cloned(),
+            }
+        }
+        Run::EvalError(e, _) => e.span().cloned(),
+        _ => None,
+    }?;
+    let m = pipeline::module_name(span.locator());
+    let text = files.get(&m)?;
+    let start = span.start().min(text.len());
+    if !text.is_char_boundary(start) {
+        return None;
+    }
+    let line_start = text[..start].rfind('\n').map_or(0, |i| i + 1);
+    let line = text[..start].matches('\n').count() + 1;
+    let col = text[line_start..start].chars().count() + 1;
+    Some((m, line, col))
 }
 
 const PRE: &str = "// \u{e9}\u{1f609} preamble\nlet pre0 = { 'k str };\nres /pre on get -> <pre0>;\n";
@@ -779,6 +808,22 @@ fn check_cli_case(dir: &TempDir, p: &Program, cfg: Cfg) -> Result<(&'static str,
                     format!("{what}: expected module {:?}, stderr {:?}", p.err_module, run.stderr),
                 ));
             }
+            // ... and the line and column are those of the span the libraries attach to the
+            // error (computed in-process on the very same texts, CRLF included)
+            if let Some((m, line, col)) = expected_position(p) {
+                let pat = format!("/{m}:{line}:{col}");
+                let found = run.stderr.match_indices(&pat).any(|(i, _)| {
+                    !run.stderr[i + pat.len()..].starts_with(|c: char| c.is_ascii_digit())
+                });
+                if !found && located(&m) {
+                    return Err(bad(
+                        "cli-diagnostic",
+                        "stderr",
+                        format!("{cname} error located at another line or column than the span of the error"),
+                        format!("{what}: expected {m}:{line}:{col}, stderr {:?}", run.stderr.chars().take(300).collect::<String>()),
+                    ));
+                }
+            }
         }
     }
 
@@ -1046,6 +1091,82 @@ fn check_lsp_case(dir: &TempDir, p: &Program) -> Result<(&'static str, u64), Bad
     ))
 }
 
+/// One single-module program per class (its first fragment, alone in main.oal).
+fn folder_menu() -> Vec<Program> {
+    let mut seen = std::collections::BTreeSet::new();
+    programs(1, 1)
+        .into_iter()
+        .filter(|p| p.modules.len() == 1 && seen.insert(p.class.name()))
+        .collect()
+}
+
+/// Two workspace folders `a` and `b` in one server: each program gets at least one
+/// diagnostic exactly when it is not accepted, whatever the other folder holds.
+fn check_two_folders(dir: &TempDir, a: &Program, b: &Program) -> Result<u64, Bad> {
+    dir.reset();
+    let mut roots = Vec::new();
+    for (name, p) in [("a", a), ("b", b)] {
+        let d = dir.0.join(name);
+        std::fs::create_dir_all(&d).expect("folder");
+        for (n, t) in &p.modules {
+            std::fs::write(d.join(n), t).expect("write module");
+        }
+        std::fs::write(d.join("oal.toml"), "[api]\nmain = \"main.oal\"\ntarget = \"out.yaml\"\n").unwrap();
+        roots.push(format!("file://{}", d.display()));
+    }
+    let what = format!("folder a: {} {:?}; folder b: {} {:?}", a.name, a.modules, b.name, b.modules);
+    let run = |roots: &[String]| -> Result<Vec<u64>, String> {
+        let mut lsp = Lsp::spawn().map_err(|e| format!("cannot spawn oal-lsp (set OAL_LSP): {e}"))?;
+        let mut notes = Vec::new();
+        lsp.request(
+            1,
+            "initialize",
+            json!({"processId": null, "rootUri": null,
+                   "capabilities": {"general": {"positionEncodings": ["utf-16"]}},
+                   "workspaceFolders": roots.iter().enumerate().map(|(i, r)| json!({"uri": r, "name": format!("w{i}")})).collect::<Vec<_>>()}),
+            &mut notes,
+        )?;
+        lsp.send(&json!({"jsonrpc": "2.0", "method": "initialized", "params": {}}))?;
+        lsp.request(
+            2,
+            "textDocument/definition",
+            json!({"textDocument": {"uri": format!("{}/main.oal", roots[0])}, "position": {"line": 0, "character": 0}}),
+            &mut notes,
+        )?;
+        Ok(roots
+            .iter()
+            .map(|r| {
+                notes
+                    .iter()
+                    .filter(|m| m["method"] == "textDocument/publishDiagnostics" && m["params"]["uri"].as_str().map_or(false, |u| u.starts_with(&format!("{r}/"))))
+                    .map(|m| m["params"]["diagnostics"].as_array().map_or(0, |x| x.len() as u64))
+                    .sum()
+            })
+            .collect())
+    };
+    let counts = run(&roots).or_else(|_| run(&roots)).map_err(|e| bad("lsp", "oal-lsp", "the server does not answer".into(), format!("{what}: {e}")))?;
+    for ((name, p), n) in [("a", a), ("b", b)].iter().zip(counts.iter()) {
+        let fails = p.class.name() != "success";
+        if fails && *n == 0 {
+            return Err(bad(
+                "frontends",
+                "oal-lsp",
+                format!("no diagnostic published for a rejected program ({}) when the server has two workspace folders", p.class.name()),
+                format!("{what}: folder {name} got {n} diagnostics (counts {counts:?})"),
+            ));
+        }
+        if !fails && *n > 0 {
+            return Err(bad(
+                "frontends",
+                "oal-lsp",
+                "diagnostics published for an accepted program when the server has two workspace folders".into(),
+                format!("{what}: folder {name} got {n} diagnostics (counts {counts:?})"),
+            ));
+        }
+    }
+    Ok(hash_of(&("lsp2", a.class.name(), b.class.name(), counts)))
+}
+
 /// The libraries place every program of the matrix in the class it was written for.
 fn check_table_case(p: &Program) -> Result<(&'static str, u64), Bad> {
     let mods = mem_modules(p, "file:///");
@@ -1117,7 +1238,7 @@ impl Engine for C13 {
     }
     fn phases(&self, tier: Tier) -> Vec<Phase> {
         let (nfrag, nembed, reduced) = match tier {
-            Tier::Quick => (4, 4, true),
+            Tier::Quick => (4, 5, true),
             Tier::Thorough => (99, 8, false),
         };
         let par = |kind: &str| json!({"kind": kind, "fragments": nfrag, "embeddings": nembed, "reduced": reduced});
@@ -1125,9 +1246,38 @@ impl Engine for C13 {
             Phase::new("program matrix through the libraries (class of every program)", par("table")),
             Phase::new("oal-cli: program x configuration matrix (+ oal_wasm on single-module sources)", par("cli")).workers(8),
             Phase::new("oal-lsp vs oal-cli: one synchronisation per program", par("lsp")).workers(8),
+            Phase::new("oal-lsp with two workspace folders: every ordered pair of one single-module program per class", par("lsp2")).workers(8),
         ]
     }
     fn run_phase(&self, phase: &Phase, sink: &mut Sink) {
+        if phase.param["kind"] == "lsp2" {
+            let menu = folder_menu();
+            let dir = matches!(sink.mode, Mode::Run | Mode::Only(_)).then(|| TempDir::new("c13f-"));
+            let mut idx = 0u64;
+            for a in menu.iter() {
+                for b in menu.iter() {
+                    if sink.mine(idx) {
+                        if sink.expired() {
+                            return;
+                        }
+                        sink.visit(
+                            idx,
+                            || json!({"kind": "lsp2", "a": describe("lsp", a, None), "b": describe("lsp", b, None)}),
+                            |s| match check_two_folders(dir.as_ref().expect("scratch"), a, b) {
+                                Ok(h) => {
+                                    s.count("states", 1);
+                                    s.count("transitions", 1);
+                                    Outcome::ok("two folders: each gets its diagnostics", Some(h))
+                                }
+                                Err(bd) => Outcome::bad("violated", bd.sig, bd.summary, Value::Null),
+                            },
+                        );
+                    }
+                    idx += 1;
+                }
+            }
+            return;
+        }
         let kind = phase.param["kind"].as_str().unwrap().to_owned();
         let progs = programs(
             phase.param["fragments"].as_u64().unwrap() as usize,
@@ -1169,6 +1319,15 @@ impl Engine for C13 {
         }
     }
     fn replay(&self, case: &Value) -> Outcome {
+        if case["kind"] == "lsp2" {
+            let (_, a, _) = case_of(&case["a"]);
+            let (_, b, _) = case_of(&case["b"]);
+            let dir = TempDir::new("c13fr-");
+            return match check_two_folders(&dir, &a, &b) {
+                Ok(_) => Outcome::ok("two folders: each gets its diagnostics", None),
+                Err(bd) => Outcome::bad("violated", bd.sig, bd.summary, case.clone()),
+            };
+        }
         let (kind, p, cfg) = case_of(case);
         let dir = (kind != "table").then(|| TempDir::new("c13r-"));
         match run_one(&kind, dir.as_ref(), &p, cfg) {
@@ -1177,7 +1336,7 @@ impl Engine for C13 {
         }
     }
     fn rule(&self) -> String {
-        "programs: for success and each failure class {lexical, syntax, unbound, duplicate, kind-mismatch, infinite-type, bad-recursion, status-literal, annotation-yaml} hand-written fragments (declarations holding the error + the statements of main that use them; quick: the first 4 per class, thorough: all 4-9) in every embedding (quick: main, after valid code with multi-byte text, imported module, qualified import; thorough also: before valid code, CRLF, module with its own import, bottom of a diamond), plus 9 missing-import and 8 import-cycle programs on 1-3 modules; lexical and syntax fragments include ones whose residual tree is complete. Phase 1 places every program in its class with the libraries (module::load + compile + eval over an in-memory loader). Phase 2 runs the real oal-cli on program x {options only (cwd = sources), --conf only (cwd elsewhere), conf naming a wrong main and target overridden by options, non-existent main} x base {none, valid, not YAML, YAML but not an OpenAPI object, missing file} x target {absent, sentinel bytes}: exit status must be 0 exactly for an accepted program with a valid configuration and 1 otherwise (never a signal or another code); on 0 the target parses as openapiv3::OpenAPI and equals, as YAML values, the document of the in-process libraries on the same module URLs (Builder::with_base for the valid base); on 1 the target is byte-identical to what it was (or still absent), stderr is not empty and, for an error in the sources, carries `<url of the module the error is in>:<line>:<column>` (for an import cycle: the url of any module of the program); for single-module sources without base oal_wasm::compile succeeds iff the CLI does and gives the same document up to hash-* names (they digest the module URL). Phase 3 starts the real oal-lsp on the sources as a workspace folder with oal.toml, initialises, sends one request and counts the diagnostics published before its answer: >= 1 iff the CLI (options only, no base) fails. distinct = distinct (class, configuration, exit, first stderr line, document) observations. states = (program, configuration) pairs, transitions = process runs".into()
+        "programs: for success and each failure class {lexical, syntax, unbound, duplicate, kind-mismatch, infinite-type, bad-recursion, status-literal, annotation-yaml} hand-written fragments (declarations holding the error + the statements of main that use them; quick: the first 4 per class, thorough: all 4-9) in every embedding (quick: main, after valid code with multi-byte text, imported module, qualified import, CRLF; thorough also: before valid code, module with its own import, bottom of a diamond), plus 9 missing-import and 8 import-cycle programs on 1-3 modules; lexical and syntax fragments include ones whose residual tree is complete. Phase 1 places every program in its class with the libraries (module::load + compile + eval over an in-memory loader). Phase 2 runs the real oal-cli on program x {options only (cwd = sources), --conf only (cwd elsewhere), conf naming a wrong main and target overridden by options, non-existent main} x base {none, valid, not YAML, YAML but not an OpenAPI object, missing file} x target {absent, sentinel bytes}: exit status must be 0 exactly for an accepted program with a valid configuration and 1 otherwise (never a signal or another code); on 0 the target parses as openapiv3::OpenAPI and equals, as YAML values, the document of the in-process libraries on the same module URLs (Builder::with_base for the valid base); on 1 the target is byte-identical to what it was (or still absent), stderr is not empty and, for an error in the sources, carries `<url of the module the error is in>:<line>:<column>` with the line and column of the span the libraries attach to the error (for an import cycle: the url of any module of the program); for single-module sources without base oal_wasm::compile succeeds iff the CLI does and gives the same document up to hash-* names (they digest the module URL). Phase 4 starts one oal-lsp on two workspace folders holding every ordered pair of one single-module program per class: each folder gets >= 1 diagnostic iff its program is rejected. Phase 3 starts the real oal-lsp on the sources as a workspace folder with oal.toml, initialises, sends one request and counts the diagnostics published before its answer: >= 1 iff the CLI (options only, no base) fails. distinct = distinct (class, configuration, exit, first stderr line, document) observations. states = (program, configuration) pairs, transitions = process runs".into()
     }
     fn assumptions(&self) -> Vec<String> {
         vec![
